@@ -12,7 +12,9 @@ from vlib.core import Discrepancy
 LEVEL = 'exploration'
 TECHNIQUE = ('Hypothesis transaction plans realised through the API; differential digest vs ref/sighash and '
              'reference-interpreter verification of embedded signatures')
-RULE = ('Plans: 1..4 inputs (thorough ..8) of kinds p2pkh (compressed/uncompressed), p2pk, p2sh m-of-n multisig, '
+RULE = ('Sub-check "history": sign, compute every digest, apply 1..4 documented mutations (set_locktime_*, sequence / '
+        'locktime assignment, output value, add_output, interleaved digest/verify calls), sign_and_update(), then '
+        'compare digests and interpreter verdict on the final serialisation. Plans: 1..4 inputs (thorough ..8) of kinds p2pkh (compressed/uncompressed), p2pk, p2sh m-of-n multisig, '
         'p2wpkh, p2sh-p2wpkh, p2wsh multisig, p2sh-p2wsh multisig, mixed freely; outpoint index / sequence / '
         'version / locktime / value from boundary sets and random; 1..4 outputs (plus 252/253/300-output shapes) of '
         'p2pkh/p2sh/p2wpkh/p2wsh/p2tr/nulldata/raw scripts given by address or script; all 11 networks. '
@@ -160,7 +162,81 @@ def check_parse(ctx, case):
             return
 
 
-DISPATCH = {'api': check_api, 'parse': check_parse}
+def check_history(ctx, case):
+    """The digest is a function of the transaction's *current* state, whatever the history of digest
+    computations and documented mutations before it (caches must not survive a mutation): sign, warm every
+    digest, mutate through the API, re-sign, then compare again on the final serialisation."""
+    from props import txplan
+    from ref import wire, interp
+    plan = case['plan']
+    try:
+        t = txplan.realise(plan, with_private=True)
+        t.sign()
+        for k in range(len(plan['inputs'])):
+            t.signature_hash(k, 1, t.inputs[k].witness_type)
+        t.verify()
+    except Exception as e:
+        ctx.refusal('history.setup.%s' % type(e).__name__)
+        return
+    applied = 0
+    for op in case['ops']:
+        name = op['op']
+        k = op.get('i', 0) % len(t.inputs)
+        try:
+            if name == 'set_locktime_blocks':
+                t.set_locktime_blocks(op['v'])
+            elif name == 'set_locktime_time':
+                t.set_locktime_time(op['v'])
+            elif name == 'set_locktime_relative_blocks':
+                t.set_locktime_relative_blocks(op['v'], input_index_n=k)
+            elif name == 'set_locktime_relative_time':
+                t.set_locktime_relative_time(op['v'], input_index_n=k)
+            elif name == 'assign_sequence':
+                t.inputs[k].sequence = op['v']
+            elif name == 'assign_locktime':
+                t.locktime = op['v']
+            elif name == 'output_value':
+                o = t.outputs[op.get('j', 0) % len(t.outputs)]
+                o.value = max(0, o.value + op['v'])
+            elif name == 'add_output':
+                t.add_output(op['v'] % 100000, lock_script=b'\x76\xa9\x14' + bytes([op['v'] % 251]) * 20 + b'\x88\xac')
+            elif name == 'digest':
+                t.signature_hash(k, 1, t.inputs[k].witness_type)
+            elif name == 'verify':
+                t.verify()
+            applied += 1
+        except Exception as e:
+            ctx.refusal('history.%s.%s' % (name, type(e).__name__))
+    try:
+        t.sign_and_update()
+        raw = t.raw()
+        final = wire.Tx.parse(raw)
+    except Exception as e:
+        ctx.refusal('history.resign.%s' % type(e).__name__)
+        return
+    if len(final.vin) != len(plan['inputs']):
+        raise Discrepancy('history.input_count', 'inputs changed', case)
+    for k, inp in enumerate(plan['inputs']):
+        cur = dict(inp, seq=final.vin[k].sequence)
+        want = _ref_digest(final, k, cur)
+        try:
+            got = t.signature_hash(k, 1, t.inputs[k].witness_type)
+        except Exception as e:
+            raise Discrepancy('history.digest.raises:' + inp['kind'], 'signature_hash(%d) raised %r' % (k, e), case)
+        if got != want:
+            ctx.disc('history.digest.mismatch:' + inp['kind'],
+                     'after %r: input %d (%s) library digest %s, consensus digest of the serialised transaction %s' %
+                     ([o['op'] for o in case['ops']], k, inp['kind'], got.hex(), want.hex()), case)
+            return
+        ok, why = interp.verify_input(final, k, txplan.prevout(inp)['spk'], inp['value'])
+        if not ok and not (why in ('unsatisfied locktime', 'unsatisfied sequence')):
+            ctx.disc('history.e2e.invalid:' + inp['kind'],
+                     'after %r and sign_and_update(): input %d (%s) is rejected by the consensus interpreter: %s' %
+                     ([o['op'] for o in case['ops']], k, inp['kind'], why), case)
+            return
+
+
+DISPATCH = {'api': check_api, 'parse': check_parse, 'history': check_history}
 
 
 def replay(ctx, case):
@@ -196,6 +272,35 @@ def run(ctx):
     ctx.run_given('api', api, prop, ctx.scale(60, 1500))
     par = st.fixed_dictionaries({'kind': st.just('parse'), 'plan': txplan.plans(max_inputs=mi)})
     ctx.run_given('parse', par, prop, ctx.scale(40, 1000))
+
+    u32 = st.one_of(st.sampled_from([0, 1, 144, 65535, 0xfffffffd, 0xfffffffe, 0xffffffff]), st.integers(0, 0xffffffff))
+    hop = st.one_of(
+        st.fixed_dictionaries({'op': st.just('set_locktime_blocks'), 'v': st.sampled_from([1, 100, 800000, 499999999])}),
+        st.fixed_dictionaries({'op': st.just('set_locktime_time'), 'v': st.sampled_from([500000001, 1700000000])}),
+        st.fixed_dictionaries({'op': st.just('set_locktime_relative_blocks'), 'v': st.sampled_from([1, 144, 65535]),
+                               'i': st.integers(0, 3)}),
+        st.fixed_dictionaries({'op': st.just('set_locktime_relative_time'), 'v': st.sampled_from([512, 5120, 33553920]),
+                               'i': st.integers(0, 3)}),
+        st.fixed_dictionaries({'op': st.just('assign_sequence'), 'v': u32, 'i': st.integers(0, 3)}),
+        st.fixed_dictionaries({'op': st.just('assign_locktime'), 'v': u32}),
+        st.fixed_dictionaries({'op': st.just('output_value'), 'v': st.sampled_from([1, -1, 1000]), 'j': st.integers(0, 3)}),
+        st.fixed_dictionaries({'op': st.just('add_output'), 'v': st.integers(1, 10 ** 6)}),
+        st.fixed_dictionaries({'op': st.just('digest'), 'i': st.integers(0, 3)}),
+        st.just({'op': 'verify'}),
+    )
+    hist = st.fixed_dictionaries({'kind': st.just('history'), 'plan': txplan.plans(max_inputs=3, max_outputs=3),
+                                  'ops': st.lists(hop, min_size=1, max_size=4)})
+
+    def prop_hist(case):
+        ctx.klass('history.cases')
+        for o in case['ops']:
+            ctx.klass('history.op.' + o['op'])
+        ctx.nt(('history', case['plan'], case['ops']))
+        if ctx.classes.get('history.sampled', 0) < 1:
+            ctx.klass('history.sampled')
+            ctx.sample(case)
+        check_history(ctx, case)
+    ctx.run_given('history', hist, prop_hist, ctx.scale(60, 1500))
 
     # many-output shapes (CompactSize boundary in hashOutputs / legacy preimage): one per shard
     if ctx.shard < 6:
